@@ -348,10 +348,21 @@ func (c *Ctx) c04Raw(flagSets [][]string) {
 	type rawCase struct {
 		name, text string
 		mayReject  bool
+		state      bool
 	}
-	for _, rc := range []rawCase{{"predeclared identifiers in code blocks", builtins, false}, {"Unicode class names in another letter case", miscased, true}} {
+	// blocks whose last statement is a terminating statement other than a plain return
+	terminating := "{\npackage %PKG%\n}\n" +
+		"S <- a:A b:B* C? !. {\n\tif len(b.([]any)) > 0 {\n\t\treturn 1, nil\n\t} else {\n\t\treturn 0, nil\n\t}\n}\n" +
+		"A <- [a-c]+ &{\n\tswitch {\n\tcase len(c.text) > 0:\n\t\treturn true, nil\n\tdefault:\n\t\treturn true, nil\n\t}\n}\n" +
+		"B <- ',' A #{\n\tif c.pos.offset > 0 {\n\t\tc.state[\"n\"] = 1\n\t\treturn nil\n\t} else {\n\t\treturn nil\n\t}\n}\n" +
+		"C <- 'z' #{\n\tfor {\n\t\treturn nil\n\t}\n} !{\n\tpanic(\"never reached\")\n}\n"
+	// classes named by one-letter categories and by long names, in both orders
+	uniMix1 := "{\npackage %PKG%\n}\nS <- [\\p{Lu}\\p{Greek}]* [\\pL\\pN_,]* / [\\p{Nd}] [\\pZ]\n"
+	uniMix2 := "{\npackage %PKG%\n}\nS <- [\\pL,]+ [\\pN]* / [\\p{Lu}\\pZ] [\\p{Nd}a-c]\n"
+	for _, rc := range []rawCase{{"predeclared identifiers in code blocks", builtins, false, true}, {"Unicode class names in another letter case", miscased, true, false},
+		{"blocks that end in a terminating statement other than return", terminating, false, true}, {"one-letter categories after long class names", uniMix1, false, false}, {"long class names after one-letter categories", uniMix2, false, false}} {
 		g := &gast.Grammar{Raw: rc.text, Rules: []*gast.Rule{{Name: "S", Expr: gast.Star(gast.Dot())}}}
-		g.UsesState = rc.name[0] == 'p'
+		g.UsesState = rc.state
 		var fs [][]string
 		for i, f := range flagSets {
 			if i%3 == 0 && !hasFlag(f, "-receiver-name") {
